@@ -116,6 +116,10 @@ class Env:
         self.vars[name] = v
 
 
+FULL_FEAS_MS = int(__import__("os").environ.get("PYVC_FULL_FEAS_MS", "150"))
+TRACE_BRANCHES = bool(__import__("os").environ.get("PYVC_TRACE_BRANCHES"))
+
+
 class PathCore:
     """State of one symbolic path + the worklist of alternative prefixes."""
 
@@ -253,6 +257,42 @@ class PathCore:
         self.feas.pop()
         return r != z3.unsat
 
+    def feasible_full(self, cond) -> bool:
+        """False only if path condition + cond is unsat (quantified facts included, E-matching only).
+        z3 can overrun its own timeout by minutes on these formulas (observed in smt::model_checker and
+        smt::model_generator), so the check runs in a forked child that is killed at the deadline."""
+        import os
+        import select
+        import signal
+        self.solver_calls += 1
+        s = z3.Solver()
+        s.set("smt.mbqi", False)
+        for ax in self.world.axioms():
+            s.add(ax)
+        for p in self.pc:
+            s.add(p)
+        s.add(cond)
+        rd, wr = os.pipe()
+        pid = os.fork()
+        if pid == 0:
+            try:
+                os.close(rd)
+                os.write(wr, b"u" if s.check() == z3.unsat else b"s")
+            finally:
+                os._exit(0)
+        os.close(wr)
+        try:
+            ready, _, _ = select.select([rd], [], [], FULL_FEAS_MS / 1000.0)
+            out = os.read(rd, 1) if ready else b""
+        finally:
+            os.close(rd)
+            try:
+                os.kill(pid, signal.SIGKILL)
+            except ProcessLookupError:
+                pass
+            os.waitpid(pid, 0)
+        return out != b"u"
+
     def branch(self, cond) -> bool:
         if isinstance(cond, bool):
             return cond
@@ -266,6 +306,11 @@ class PathCore:
         else:
             t_ok = self.feasible(cond)
             f_ok = self.feasible(z3.Not(cond))
+            if t_ok and f_ok and getattr(self, "deep_feasibility", False):
+                # both sides pass the quantifier-free test: ask once more with the whole path condition (quantified
+                # well-formedness facts included), short budget; only `unsat` prunes (sound: an infeasible side has no executions)
+                t_ok = self.feasible_full(cond)
+                f_ok = self.feasible_full(z3.Not(cond)) if t_ok else True
             if t_ok and f_ok:
                 self.pending.append(self.decisions + [False])
                 d = True
@@ -277,6 +322,8 @@ class PathCore:
                 raise Halt()
         self.pos += 1
         self.decisions.append(d)
+        if TRACE_BRANCHES:
+            self.branch_log = getattr(self, "branch_log", [])[:len(self.decisions) - 1] + [(getattr(self, "cur_line", None), d, str(cond)[:70].replace("\n", " "))]
         c = cond if d else z3.Not(cond)
         self.pc.append(c)
         self.feas.add(c)
